@@ -38,7 +38,7 @@ def run_one(m, args):
                                cwd=dst, capture_output=True, text=True, timeout=1800)
             res['tests_pass'] = (r.returncode == 0)
             res['tests_tail'] = r.stdout.strip().splitlines()[-1:] if r.stdout else []
-        checks = args.checks.split(',') if args.checks else m['expect']
+        checks = args.checks.split(',') if args.checks else (m['expect'] or m.get('run', []))
         for c in checks:
             env = dict(os.environ, PYTENET_REPO=dst, PVM_EVID_DIR=os.path.join(scratch, 'evid'), PVM_REPLAY_DIR=os.path.join(scratch, 'replays'))
             r = subprocess.run([os.path.join(VERIF, 'check'), c, '--tier', 'quick'], capture_output=True, text=True, env=env, timeout=3600)
@@ -68,7 +68,9 @@ def main():
             caught = [c for c in res if isinstance(res[c], dict) and res[c].get('exit') == 1]
             missed = [c for c in m['expect'] if c in res and res[c].get('exit') != 1]
             status = 'CAUGHT' if not missed and 'error' not in res else 'MISSED'
-            if status == 'MISSED':
+            if m.get('benign'):
+                status = 'FALSE-ALARM' if caught else 'SILENT-OK'
+            if status in ('MISSED', 'FALSE-ALARM'):
                 bad += 1
             print(f'{status:7s} {name:40s} caught_by={caught} missed={missed} '
                   + (f"tests_pass={res.get('tests_pass')} " if args.tests else '') + (res.get('error', '')))
